@@ -10,7 +10,10 @@ import (
 	"testing"
 	"time"
 
+	"github.com/google/go-tdx-guest/abi"
+	pb "github.com/google/go-tdx-guest/proto/tdx"
 	"github.com/google/go-tdx-guest/verify"
+	"google.golang.org/protobuf/proto"
 	"verifharness/gen"
 )
 
@@ -88,6 +91,20 @@ func replayVerifyRaw(c map[string]any) string {
 	raw, _ := hex.DecodeString(c["raw_hex"].(string))
 	o, _ := decodeOptions(c)
 	v := gen.Call(func() error { return verify.RawTdxQuote(raw, o) })
+	if ph, ok := c["proto_hex"].(string); ok {
+		// the case is a message (which raw bytes cannot express, e.g. a field of another size): raw_hex is the genuine quote
+		pbytes, _ := hex.DecodeString(ph)
+		m := &pb.QuoteV4{}
+		if err := proto.Unmarshal(pbytes, m); err != nil {
+			return "case file does not hold a message: " + err.Error()
+		}
+		v = gen.Call(func() error { return verify.TdxQuote(m, o) })
+	}
+	if c["then_supported"] == true && !v.Panicked() {
+		if m, err := abi.QuoteToProto(raw); err == nil {
+			v = gen.Call(func() error { _, _, err := verify.SupportedTcbLevelsFromCollateral(m, o); return err })
+		}
+	}
 	switch c["expect"] {
 	case "reject":
 		if v.Accepted() {
@@ -170,4 +187,11 @@ func replayDir(t *testing.T, prop string) {
 			}
 		})
 	}
+}
+
+func withFields(c map[string]any, extra map[string]any) map[string]any {
+	for k, v := range extra {
+		c[k] = v
+	}
+	return c
 }
